@@ -193,6 +193,12 @@ def parse_assumptions(_make_stdout: str) -> dict[str, list[str]]:
 # model driver (extracted OCaml) -- a persistent subprocess, one s-expression per line
 
 
+class ModelStalled(RuntimeError):
+    def __init__(self, req: str, done: int, total: int) -> None:
+        super().__init__(f"the extracted model did not answer request {done + 1} of {total} in time: {req[:300]}")
+        self.req = req
+
+
 class Model:
     def __init__(self) -> None:
         self.p = subprocess.Popen(
@@ -206,13 +212,48 @@ class Model:
         return self.p.stdout.readline().rstrip("\n")
 
     def ask_many(self, reqs: list[str]) -> list[str]:
-        # batch through a fresh process to avoid pipe deadlocks on large batches
-        r = subprocess.run([str(BUILD / "dldriver")], input="\n".join(reqs) + "\n", text=True, capture_output=True, timeout=1500)
-        out = r.stdout.split("\n")
-        if out and out[-1] == "":
-            out.pop()
+        """Batch through a fresh process (no pipe deadlocks on large batches).  The driver answers line by line; when no
+        answer arrives for VERIF_MODEL_STALL_S seconds the request it is working on is beyond what the extracted model's binary
+        arithmetic can do in reasonable time (generators keep below that bound, DESIGN 10; this is the safety net):
+        ModelStalled names it, and harness/main.py repeats the run with other generated inputs."""
+        import select
+        import threading
+
+        if not reqs:
+            return []
+        stall = float(os.environ.get("VERIF_MODEL_STALL_S", "300"))
+        p = subprocess.Popen([str(BUILD / "dldriver")], stdin=subprocess.PIPE, stdout=subprocess.PIPE, stderr=subprocess.DEVNULL)
+        data = ("\n".join(reqs) + "\n").encode()
+
+        def feed() -> None:
+            try:
+                p.stdin.write(data)
+                p.stdin.close()
+            except (BrokenPipeError, OSError):
+                pass
+
+        th = threading.Thread(target=feed, daemon=True)
+        th.start()
+        buf, out = b"", []
+        fd = p.stdout.fileno()
+        try:
+            while True:
+                ready, _, _ = select.select([fd], [], [], stall)
+                if not ready:
+                    p.kill()
+                    raise ModelStalled(reqs[len(out)] if len(out) < len(reqs) else "?", len(out), len(reqs))
+                chunk = os.read(fd, 1 << 20)
+                if not chunk:
+                    break
+                buf += chunk
+                *lines, buf = buf.split(b"\n")
+                out += [ln.decode() for ln in lines]
+        finally:
+            if p.poll() is None and len(out) < len(reqs):
+                p.kill()
+            p.wait()
         if len(out) != len(reqs):
-            raise RuntimeError(f"driver answered {len(out)} lines for {len(reqs)} requests: {r.stderr[-500:]}")
+            raise RuntimeError(f"driver answered {len(out)} lines for {len(reqs)} requests")
         return out
 
     def close(self) -> None:
